@@ -10,7 +10,21 @@ type chanMeta struct {
 	o  own
 	oh objHash
 	cx *Ctx
+	// unbuffered channels are emulated: a sender is enabled while more receivers wait than
+	// values have been handed over; the real channel carries nothing (it is only closed)
+	rwait int
+	slot  []any
+	sem   byte
 }
+
+type sendURef struct{ m *chanMeta }
+
+//go:norace
+func (r sendURef) chLen() int { return len(r.m.slot) }
+
+//go:norace
+func (r sendURef) chCap() int     { return r.m.rwait }
+func (r sendURef) chClosed() bool { return false }
 
 var chanReg []*chanMeta
 
@@ -71,10 +85,17 @@ func Send[T any](ch chan<- T, v T) {
 		ch <- v
 		return
 	}
-	if cap(ch) == 0 {
-		panic("vsched: send on unbuffered channel is not supported by the scheduler shim")
-	}
 	m := chanFor(*(*unsafe.Pointer)(unsafe.Pointer(&ch)))
+	if cap(ch) == 0 {
+		// rendezvous: enabled once a receiver waits that no earlier send has been matched with
+		if m.o.vis() || m.rwait <= len(m.slot) {
+			yield(&Op{Kind: OpSend, ch: sendURef{m}}, "chan.send")
+		}
+		m.oh.touchW(21)
+		raceReleaseMerge(unsafe.Pointer(&m.sem))
+		m.slot = append(m.slot, v)
+		return
+	}
 	if m.o.vis() || len(ch) >= cap(ch) {
 		yield(&Op{Kind: OpSend, ch: sendRef[T]{ch}}, "chan.send")
 	}
@@ -108,8 +129,31 @@ func RecvOK[T any](ch <-chan T) (T, bool) {
 		return v, ok
 	}
 	m := chanFor(*(*unsafe.Pointer)(unsafe.Pointer(&ch)))
+	if cap(ch) == 0 && m.cx == nil {
+		// unbuffered channel: ready when a sender has handed a value over, or by close
+		m.rwait++
+		op := &Op{Kind: OpRecvU, ch: recvRef[T]{ch}, cm: m}
+		vis := m.o.vis()
+		raceDisable()
+		en := op.enabled()
+		raceEnable()
+		if vis || !en {
+			yield(op, "chan.recv")
+		}
+		m.rwait--
+		m.oh.touchW(23)
+		if len(m.slot) > 0 {
+			v := m.slot[0]
+			m.slot = m.slot[1:]
+			raceAcquire(unsafe.Pointer(&m.sem))
+			t, _ := v.(T)
+			return t, true
+		}
+		v, ok := <-ch // closed
+		return v, ok
+	}
 	if cap(ch) == 0 {
-		// done-channel: becomes ready only by close
+		// a context's done-channel: becomes ready only by close
 		op := &Op{Kind: OpDone, ch: recvRef[T]{ch}, cx: m.cx}
 		vis := false
 		if m.cx != nil {
@@ -134,6 +178,7 @@ func RecvOK[T any](ch <-chan T) (T, bool) {
 	if m.o.vis() || len(ch) == 0 {
 		yield(&Op{Kind: OpRecv, ch: recvRef[T]{ch}}, "chan.recv")
 	}
+	raceAcquire(unsafe.Pointer(&m.sem))
 	m.oh.touchW(23)
 	v, ok := <-ch
 	return v, ok
@@ -168,4 +213,19 @@ func WaitDone(ctx context.Context) {
 	}
 	c.obs(22)
 	<-c.Context.Done()
+}
+
+// Close replaces close(ch): a visible write on the channel (it readies every receiver).
+//
+//go:norace
+func Close[T any](ch chan T) {
+	if S != nil && !S.aborting && ch != nil {
+		m := chanFor(*(*unsafe.Pointer)(unsafe.Pointer(&ch)))
+		if m.o.vis() {
+			Yield("chan.close")
+		}
+		m.oh.touchW(24)
+		raceReleaseMerge(unsafe.Pointer(&m.sem))
+	}
+	close(ch)
 }
